@@ -140,10 +140,11 @@ func init() {
 }
 
 func totalEvent(c *ctx, name string, b []byte) M {
-	in := append([]byte{}, b...)
+	in, backing := withSpare(b) // the input is a sub-slice with spare capacity: writes beyond it are observed too
+	before := string(backing)
 	k := c.key()
 	res, _ := observe(func() error { return entries[name](in, k) })
-	return M{"ev": "total", "entry": name, "len": len(b), "err": res, "intact": string(in) == string(b), "head": bs(b[:min(len(b), 24)])}
+	return M{"ev": "total", "entry": name, "len": len(b), "err": res, "intact": string(backing) == before, "head": bs(b[:min(len(b), 24)])}
 }
 
 func min(a, b int) int {
